@@ -2,7 +2,7 @@
    scoped.  Model: coq/Eval/Calc.v (ast::evaluate, Scope, Value::apply,
    resolve_identifier, evaluate_to_spans; numbers, built-ins and units are
    parameters).  Property theorems only; each closed by [exact]. *)
-From FendV Require Import Base.Prelude Eval.Calc Eval.CalcProofs Eval.CalcZ Eval.Close Eval.CloseProofs.
+From FendV Require Import Base.Prelude Eval.Calc Eval.CalcProofs Eval.CalcZ Eval.Close Eval.CloseProofs Eval.LetProofs.
 Open Scope N_scope.
 
 Section C09.
@@ -121,6 +121,7 @@ Proof. exact (top_failure_lemma num num_un num_bop builtin builtin_apply unit_of
    variables of the context). *)
 Section Subst.
 Variable isparam : ident -> bool.
+Variable assignable : ident -> bool.   (* the names the expressions in play may assign to: any, for beta *)
 Hypothesis Hx : isparam id_x = true.
 Hypothesis Hbuiltin : forall x g, builtin x = Some (inl g) -> isparam g = false.
 Hypothesis Hunit : forall a b, isparam a = true \/ isparam b = true -> unit_static (underscore_join a b) = None.
@@ -129,10 +130,10 @@ Hypothesis Hunit : forall a b, isparam a = true \/ isparam b = true -> unit_stat
    same result (closures up to their closed form), same variables, same
    error, same polls -- also under an interrupt. *)
 Theorem C09_lockstep : forall fire f (e1 e2 : expr num) s1 s2 st,
-  config_ok num isparam e1 s1 -> config_ok num isparam e2 s2 ->
-  close s1 e1 = close s2 e2 -> WFst num isparam st ->
+  config_ok num isparam assignable e1 s1 -> config_ok num isparam assignable e2 s2 ->
+  close s1 e1 = close s2 e2 -> WFst num isparam assignable st ->
   same_outcome num (eval fire f e1 s1 st) (eval fire f e2 s2 st).
-Proof. exact (lockstep_same_lemma num num_un num_bop builtin builtin_apply unit_of unit_static isparam Hx Hbuiltin Hunit). Qed.
+Proof. exact (lockstep_same_lemma num num_un num_bop builtin builtin_apply unit_of unit_static isparam assignable Hx Hbuiltin Hunit). Qed.
 
 (* beta: applying a lambda gives the same result as substituting the
    parenthesised argument for the parameter (free occurrences; an inner
@@ -141,33 +142,101 @@ Proof. exact (lockstep_same_lemma num num_un num_bop builtin builtin_apply unit_
    both sides: the argument is re-evaluated at every use.  The application
    itself costs two polls (three through parentheses). *)
 Theorem C09_beta : forall f x (b a : expr num) sc st,
-  config_ok num isparam (EApplyFn (EFn x b) a) sc -> WFst num isparam st ->
+  config_ok num isparam assignable (EApplyFn (EFn x b) a) sc -> WFst num isparam assignable st ->
   capture_free x (idents a) b = true ->
   same_outcome num (eval None (S (S f)) (EApplyFn (EFn x b) a) sc st)
                    (eval None (S f) (subst x (EParens a) b) sc (bump num 2 st)).
-Proof. exact (beta_subst_lemma num num_un num_bop builtin builtin_apply unit_of unit_static isparam Hx Hbuiltin Hunit). Qed.
+Proof. exact (beta_subst_lemma num num_un num_bop builtin builtin_apply unit_of unit_static isparam assignable Hx Hbuiltin Hunit). Qed.
 
 Theorem C09_beta_parens : forall f x (b a : expr num) sc st,
-  config_ok num isparam (EApply (EParens (EFn x b)) a) sc -> WFst num isparam st ->
+  config_ok num isparam assignable (EApply (EParens (EFn x b)) a) sc -> WFst num isparam assignable st ->
   capture_free x (idents a) b = true ->
   same_outcome num (eval None (S (S (S f))) (EApply (EParens (EFn x b)) a) sc st)
                    (eval None (S (S f)) (subst x (EParens a) b) sc (bump num 3 st)).
-Proof. exact (beta_subst_apply_lemma num num_un num_bop builtin builtin_apply unit_of unit_static isparam Hx Hbuiltin Hunit). Qed.
+Proof. exact (beta_subst_apply_lemma num num_un num_bop builtin builtin_apply unit_of unit_static isparam assignable Hx Hbuiltin Hunit). Qed.
 
 (* lexical scope, semantically: an expression with no free parameter name
    means the same in every scope *)
 Theorem C09_scope_irrelevant : forall fire f (e : expr num) s1 s2 st,
-  okp isparam [] e = true -> wss isparam s1 = true -> wss isparam s2 = true -> WFst num isparam st ->
+  okp isparam assignable [] e = true -> wss isparam assignable s1 = true -> wss isparam assignable s2 = true -> WFst num isparam assignable st ->
   same_outcome num (eval fire f e s1 st) (eval fire f e s2 st).
-Proof. exact (closed_scope_irrelevant_lemma num num_un num_bop builtin builtin_apply unit_of unit_static isparam Hx Hbuiltin Hunit). Qed.
+Proof. exact (closed_scope_irrelevant_lemma num num_un num_bop builtin builtin_apply unit_of unit_static isparam assignable Hx Hbuiltin Hunit). Qed.
 
-(* let-substitution for assigned names (x = e; ... x ...  vs  ... (e) ...) is
-   NOT proved: variables hold values (call-by-value, read when used) while the
-   substituted text is re-evaluated, so the two runs are not in lockstep; the
-   law is tested (gen/c09.py, let pairs) for right-hand sides whose
-   dependencies are not reassigned.  Full statement, for the record:
-     pure e -> stable e uses ->
-     eval (EStmts (EAssign x e) u) ~ eval (subst x (EParens e) u)  after the assignment. *)
+(* ---- let-substitution ----
+   "Binding a name to an expression and then using the name gives the same
+   result as writing the parenthesised expression in its place."
+   x is the bound name (not a parameter name, not half of an a_b unit), e the
+   right-hand side (no free parameter names), G the context variables e
+   reads.  PURE: with at least K units of fuel, in every well-formed state
+   that agrees with the reference on G, e evaluates -- changing no variable
+   -- to a value with closed form cv.  The expressions in play assign neither
+   to x nor to a name in G ([assignable]).  The state is one in which x holds
+   a value with closed form cv ([InvX]; C09_let_after_assignment: the state
+   right after x = e is such a state).
+   The variable is read once-evaluated (call-by-value), the substituted text
+   is re-evaluated at every use: the run with the text needs K more units of
+   fuel (existential-fuel simulation), polls differ, results agree: same
+   error, or values equal up to closed form and uses of x replaced by (e)
+   inside closure bodies ([let_outcome]); numbers are equal. *)
+Section Let.
+Variable x : ident.
+Variable e : expr num.
+Variable G : list ident.
+Hypothesis Hxg : isparam x = false.
+Hypothesis Hxunit : forall b, unit_static (underscore_join x b) = None /\ unit_static (underscore_join b x) = None.
+Hypothesis He : okp isparam assignable [] e = true.
+Hypothesis Hassign : forall y, assignable y = true -> ident_eqb y x = false /\ inb y G = false.
+Variable cv : value num.
+Variable K : nat.
+Variable vars0 : vars num.
+Hypothesis Hpure : forall st fuel, WFst num isparam assignable st -> AgreeG num G vars0 st -> (K <= fuel)%nat ->
+  exists s' v', eval None fuel e SNil st = (s', Good v') /\ nvs (s_vars s') = nvs (s_vars st) /\ nv v' = cv.
+
+Theorem C09_let_subst : forall f (u : expr num) st,
+  config_ok num isparam assignable u SNil -> WFst num isparam assignable st ->
+  InvX num x e cv st -> AgreeG num G vars0 st ->
+  snd (eval None f u SNil st) <> Bad EFuel ->
+  let_outcome num x e (eval None f u SNil st) (eval None (f + K) (subst x (EParens e) u) SNil st).
+Proof.
+  exact (let_subst_lemma num num_un num_bop builtin builtin_apply unit_of unit_static isparam assignable
+           Hx Hbuiltin Hunit x e G Hxg Hxunit He Hassign cv K vars0 Hpure).
+Qed.
+
+Theorem C09_let_subst_number : forall f (u : expr num) st s1 n,
+  config_ok num isparam assignable u SNil -> WFst num isparam assignable st ->
+  InvX num x e cv st -> AgreeG num G vars0 st ->
+  eval None f u SNil st = (s1, Good (VNum n)) ->
+  snd (eval None (f + K) (subst x (EParens e) u) SNil st) = Good (VNum n).
+Proof.
+  exact (let_subst_num_lemma num num_un num_bop builtin builtin_apply unit_of unit_static isparam assignable
+           Hx Hbuiltin Hunit x e G Hxg Hxunit He Hassign cv K vars0 Hpure).
+Qed.
+
+Theorem C09_let_after_assignment : forall f0 st0 st v,
+  WFst num isparam assignable st0 -> AgreeG num G vars0 st0 -> inb x G = false -> (K <= f0)%nat ->
+  eval None (S f0) (EAssign x e) SNil st0 = (st, Good v) ->
+  WFst num isparam assignable st /\ InvX num x e cv st /\ AgreeG num G vars0 st.
+Proof.
+  exact (let_after_assign_lemma num num_un num_bop builtin builtin_apply unit_of unit_static isparam assignable
+           Hx Hbuiltin x e G He Hassign cv K vars0 Hpure).
+Qed.
+End Let.
+
+(* purity is a semantic premise; it holds for number literals, lambdas and
+   arithmetic on literals (and, by the same computation, for any right-hand
+   side one can evaluate symbolically).  NOT proved: a syntactic criterion
+   for arbitrary terminating right-hand sides (it needs fuel monotonicity and
+   an independence-of-unread-variables lemma for the evaluator). *)
+Theorem C09_pure_literal : forall (n : num) (st : state num) fuel, (1 <= fuel)%nat ->
+  exists s' v', eval None fuel (ELit n) SNil st = (s', Good v')
+    /\ nvs (s_vars s') = nvs (s_vars st) /\ nv v' = VNum n.
+Proof. exact (pure_literal num num_un num_bop builtin builtin_apply unit_of unit_static). Qed.
+
+Theorem C09_pure_lambda : forall p (b : expr num) (st : state num) fuel, (1 <= fuel)%nat ->
+  exists s' v', eval None fuel (EFn p b) SNil st = (s', Good v')
+    /\ nvs (s_vars s') = nvs (s_vars st) /\ nv v' = VFn p b SNil.
+Proof. exact (pure_lambda num num_un num_bop builtin builtin_apply unit_of unit_static). Qed.
+
 End Subst.
 
 End C09.
@@ -189,6 +258,11 @@ Print Assumptions C09_lockstep.
 Print Assumptions C09_beta.
 Print Assumptions C09_beta_parens.
 Print Assumptions C09_scope_irrelevant.
+Print Assumptions C09_let_subst.
+Print Assumptions C09_let_subst_number.
+Print Assumptions C09_let_after_assignment.
+Print Assumptions C09_pure_literal.
+Print Assumptions C09_pure_lambda.
 
 (* ------------------------------------------------------------------ *)
 (* non-vacuity, on the integer instance *)
@@ -246,10 +320,25 @@ Example C09_beta_example :
   let b := EFn (idn "p2") (EBop BPlus (EIdent (idn "p1")) (EBop BMul (EIdent (idn "p2")) (EIdent (idn "g")))) in
   let a := EBop BPlus (EIdent (idn "g")) (ELit 1%Z) in
   let st := mkS [(idn "g", VNum 5%Z)] 0 [] in
-  okp zparam [] (EApplyFn (EFn (idn "p1") b) a) = true
+  okp zparam (fun _ => true) [] (EApplyFn (EFn (idn "p1") b) a) = true
   /\ capture_free (idn "p1") (idents a) b = true
   /\ nout (snd (zeval None 20 (EApplyFn (EFn (idn "p1") b) a) SNil st))
      = nout (snd (zeval None 19 (subst (idn "p1") (EParens a) b) SNil st))
   /\ snd (zeval None 20 (EApplyFn (EFn (idn "p1") b) a) SNil st)
      <> snd (zeval None 19 (subst (idn "p1") (EParens a) b) SNil st).
 Proof. vm_compute. repeat split. discriminate. Qed.
+
+(* let: g = (p1: p1 * 3); g 4 + g 5  vs  (p1: p1 * 3) 4 + (p1: p1 * 3) 5 on the
+   integer instance; the premises of C09_let_subst hold (x = g, e a lambda,
+   G empty, K = 1, cv = the lambda over the empty scope) and the two runs give
+   27 with fuel 10 and 11 *)
+Example C09_let_example :
+  let lam := EFn (idn "p1") (EBop BMul (EIdent (idn "p1")) (ELit 3%Z)) in
+  let u := EBop BPlus (EApplyFn (EIdent (idn "g")) (ELit 4%Z)) (EApplyFn (EIdent (idn "g")) (ELit 5%Z)) in
+  let asg := fun y => negb (ident_eqb y (idn "g")) in
+  let st := fst (zeval None 3 (EAssign (idn "g") lam) SNil (mkS [] 0 [])) in
+  get_var (idn "g") (s_vars st) = Some (VFn (idn "p1") (EBop BMul (EIdent (idn "p1")) (ELit 3%Z)) SNil)
+  /\ okp zparam asg [] lam = true /\ okp zparam asg [] u = true /\ zparam (idn "g") = false
+  /\ snd (zeval None 10 u SNil st) = Good (VNum 27%Z)
+  /\ snd (zeval None 11 (subst (idn "g") (EParens lam) u) SNil st) = Good (VNum 27%Z).
+Proof. vm_compute. repeat split. Qed.
